@@ -181,7 +181,16 @@ const diffPaths = (a, b, p, out) => {
     }
   } else if (typeof a === 'function' && typeof b === 'function') {
     if (a !== b) out.push(p)
-  } else if (!Object.is(a, b)) out.push(p)
+  } else if (!Object.is(a, b)) {
+    out.push(p)
+    // an object appears where nothing (or null) was, or vanishes: every member read through the
+    // old/new nothing was undefined and now is not, so each member path differs as well
+    const o = isObj(a) && (b === null || b === undefined) ? a : isObj(b) && (a === null || a === undefined) ? b : null
+    if (o) {
+      if (Array.isArray(o)) out.push([...p, 'length'])
+      for (const k of Object.keys(o)) diffPaths(undefined, o[k], [...p, k], out)
+    }
+  }
   return out
 }
 const getPath = (d, p) => {
@@ -546,9 +555,15 @@ function serListeners(n) {
       }
     }
   }
+  const sorted = () => {
+    // (the order in which event names were first used is history, not content)
+    const o2 = {}
+    for (const k of Object.keys(out).sort()) o2[k] = out[k]
+    return o2
+  }
   add(et.listeners, '')
   add(et.captureListeners, 'capture:')
-  return any ? out : undefined
+  return any ? sorted() : undefined
 }
 
 function ser(n) {
